@@ -291,8 +291,11 @@ class Engine:
         if not cands or len(self.u.defs) > 14:
             return None
         src = self.pick(cands)
+        named2 = [d for d in cands if sum(1 for p in d.ports if p.name) >= 2 and d.references]
+        if named2 and self.r.random() < 0.4:
+            src = self.pick(named2)         # (an instanced cell with two or more named ports: a re-point target that matters)
         widths = [len(p.pins) for p in src.ports]
-        kind = self.r.choice(["same", "same", "same, port names rotated", "last port wider", "last port wider", "widths permuted", "widths permuted"])
+        kind = self.r.choice(["same", "same", "same, port names rotated", "same, port names rotated", "last port wider", "last port wider", "widths permuted", "widths permuted"])
         same = kind == "same"
         names = [None] * len(widths)
         if kind == "same, port names rotated":
